@@ -114,23 +114,33 @@ def ab_summary(itp, xi, w, dt):
 
 
 @invariant(SD + 'nigam_and_jennings_response', 1)
-def nj_invariant(env, pre, k, lo, hi):
+def nj_invariant(env, pre, k, lo, hi, Qh):
     U, Vv, acc, a, b, s = env.resp_u, env.resp_v, env.acc, env.a, env.b, env.s
     P, N = U.shape
-    r, j, c = z3.Ints('ir ij ic')
-    Pz, Nz, sz = T.to_int_term(P), T.to_int_term(N), T.to_int_term(s)
-    zero = lambda t: T.to_bool_term(T.seq(t, 0))
-    yield 'rows-of-a-leading-zero-period-stay-zero', forall([r, c], z3.Implies(z3.And(0 <= r, r < sz, 0 <= c, c < Nz),
-                                                                             z3.And(zero(U.at(r, c)), zero(Vv.at(r, c)))), T.to_z3(U.at(r, c)))
-    yield 'zero-initial-conditions', forall([r], z3.Implies(z3.And(sz <= r, r < Pz), z3.And(zero(U.at(r, 0)), zero(Vv.at(r, 0)))), T.to_z3(U.at(r, 0)))
-    rs = r - sz
-    nu = T.to_real(a.at(0, 0, rs)) * T.to_real(U.at(r, j)) + T.to_real(a.at(0, 1, rs)) * T.to_real(Vv.at(r, j)) + \
-        T.to_real(b.at(0, 0, rs)) * T.to_real(acc.at(j)) + T.to_real(b.at(0, 1, rs)) * T.to_real(acc.at(j + 1))
-    nv = T.to_real(a.at(1, 0, rs)) * T.to_real(U.at(r, j)) + T.to_real(a.at(1, 1, rs)) * T.to_real(Vv.at(r, j)) + \
-        T.to_real(b.at(1, 0, rs)) * T.to_real(acc.at(j)) + T.to_real(b.at(1, 1, rs)) * T.to_real(acc.at(j + 1))
-    yield 'recurrence-holds-up-to-the-current-column', forall(
-        [r, j], z3.Implies(z3.And(sz <= r, r < Pz, 0 <= j, j < T.to_int_term(k)),
-                           z3.And(T.to_real(U.at(r, j + 1)) == nu, T.to_real(Vv.at(r, j + 1)) == nv)), T.to_z3(U.at(r, j + 1)))
+    zero = lambda t: T.seq(t, 0)
+    yield 'rows-of-a-leading-zero-period-stay-zero', Qh.forall(
+        ['r', 'c'], lambda r, c: T.sand(T.sle(0, r), T.slt(r, s), T.sle(0, c), T.slt(c, N)),
+        lambda r, c: T.sand(zero(U.at(r, c)), zero(Vv.at(r, c))), lambda r, c: U.at(r, c))
+    yield 'zero-initial-conditions', Qh.forall(
+        ['r'], lambda r: T.sand(T.sle(s, r), T.slt(r, P)), lambda r: T.sand(zero(U.at(r, 0)), zero(Vv.at(r, 0))), lambda r: U.at(r, 0))
+
+    def rec(r, j):
+        rs = T.ssub(r, s)
+        tr = T.to_real
+        nu = tr(a.at(0, 0, rs)) * tr(U.at(r, j)) + tr(a.at(0, 1, rs)) * tr(Vv.at(r, j)) + tr(b.at(0, 0, rs)) * tr(acc.at(j)) + tr(b.at(0, 1, rs)) * tr(acc.at(T.sadd(j, 1)))
+        nv = tr(a.at(1, 0, rs)) * tr(U.at(r, j)) + tr(a.at(1, 1, rs)) * tr(Vv.at(r, j)) + tr(b.at(1, 0, rs)) * tr(acc.at(j)) + tr(b.at(1, 1, rs)) * tr(acc.at(T.sadd(j, 1)))
+        return z3.And(tr(U.at(r, T.sadd(j, 1))) == nu, tr(Vv.at(r, T.sadd(j, 1))) == nv)
+    if Qh.mode == 'assume':
+        yield 'recurrence-holds-up-to-the-current-column', Qh.forall(
+            ['r', 'j'], lambda r, j: T.sand(T.sle(s, r), T.slt(r, P), T.sle(0, j), T.slt(j, k)), rec, lambda r, j: U.at(r, T.sadd(j, 1)))
+    else:
+        # as a goal the same statement is split into "earlier columns are untouched" and "the column just written", which
+        # spares the solver the case split inside the if-then-else of the store
+        km1 = T.ssub(k, 1)
+        yield 'recurrence-holds-up-to-the-current-column/earlier-columns', Qh.forall(
+            ['r', 'j'], lambda r, j: T.sand(T.sle(s, r), T.slt(r, P), T.sle(0, j), T.slt(j, km1)), rec, None)
+        yield 'recurrence-holds-up-to-the-current-column/column-just-written', Qh.forall(
+            ['r'], lambda r: T.sand(T.sle(s, r), T.slt(r, P), T.sle(0, km1)), lambda r: rec(r, km1), None)
 
 
 def _nj_setup(V, st, lead_zero, container='array'):
